@@ -32,7 +32,7 @@ def fmtStep (line : String) : String :=
   match Sexp.decode (line.trimAscii.toString) with
   | none => "bad-case"
   | some text =>
-    match Unparse.format Unparse.widthCjk Unparse.widthStd text.toList with
+    match Unparse.format Unparse.widthCjk text.toList with
     | .ok out => "ok " ++ Sexp.encode (String.ofList out)
     | .err _ => "err parse"
     | .panic s => "panic " ++ Sexp.encode s
